@@ -1,5 +1,5 @@
 (* C18 — the unreachable-alternative check is exact on item sequences. *)
-From Coq Require Import List String Bool.
+From Coq Require Import List String Bool NArith.
 From Pegen Require Import Base.StrUtil Grammar.Ast Grammar.Printer Analysis.Validator Proofs.ValidatorProofs.
 Import ListNotations.
 Open Scope string_scope.
@@ -29,7 +29,7 @@ Print Assumptions C18_report_is_true_prefix.
 
 (* Non-vacuity: a character-wise prefix that is not an item-wise prefix is not reported, a true
    item-wise prefix is. *)
-Definition ni (s : string) := NItem None None (NameLeaf s).
+Definition ni (s : string) := NItem 0%N None None (NameLeaf s).
 Example C18_char_prefix_not_reported :
   validate_alts true [Alt [ni "foo"] None; Alt [ni "foo_bar"] None] = None.
 Proof. vm_compute. reflexivity. Qed.
